@@ -59,9 +59,9 @@ P("C04", "model_checking", native=True, kani={"timeout": "900s"},
   unbounded="the three index functions and the step destructuring: active_step_branch_count == #{i: depth_i > step} (R13 desugaring of iter/filter/count), step_results.k is indexed over active branches only, extract_results_tuple names exactly the active branches in branch order (R13 desugaring of the lazy filter with its counting closure) and hands ALL result names to the handler in branch order",
   not_decided="spawn kinds; generate_step / join_steps (the assembly of the per-step tuples) are outside Verus and covered by the bounded programs only")
 
-P("C09", "model_checking", kani={"timeout": "1200s"},
+P("C09", "model_checking", native=True, kani={"timeout": "1200s"},
   bounded="join_async!/try_join_async!, profiles n<=3 d<=2 (thorough: d<=3, n=4 sample), one harness-controlled gate per (branch, step) with symbolic pending count <= 1: every readiness pattern incl. batches; polls <= 1 + sum_s max_i p_is",
-  not_decided="tokio-task variant; unbounded liveness")
+  not_decided="tokio-task variants beyond the 6 native programs of spawn_sweep (one schedule each, 5 s timeout); unbounded liveness")
 P("C03", "model_checking", native=True, kani={"timeout": "1200s"},
   bounded="sync: profiles n<=3 d<=3 with 7 operator kinds rotating over positions (incl. deferred error operators), exact staged trace; async: same gate programs as C09, monotone step numbers in the trace",
   not_decided="OS-thread interleavings and tokio task schedules (Kani has no thread support)")
